@@ -159,6 +159,9 @@ def run(ctx):
                 ctx.rep.sample({"suite": "K5", "instance": inst, "routes": sol[models.route_key(cls)]})
         for it in range(max(2, per // 2)):          # node-weighted input (with additional starts/ends)
             k5_case(ctx, models.node_instance(rng, cls), suite="K5.node_mode")
+        if cls in ("kLeastAbsErrors", "kMinPathError", "kPathCover", "MinPathCover"):
+            for it in range(ctx.n(8, 40)):          # routes that must end/start at a declared inner node
+                k5_case(ctx, models.node_drop_instance(rng, cls), suite="K5.node_mode_starts_ends")
 
 
 def finding_case(ctx, inp):
